@@ -84,4 +84,73 @@ theorem F02_model_witness :
     s'.w.stuck = true ∧ (match (s'.step {} { now := 2, recs := [(3, 0)] } (.mkdir (n!"/x") 493)).2 with | .error .stuck => true | _ => false) = true := by
   decide
 
+/-! ### the same question on the operation models: when does a write operation leave the drive locked? -/
+
+theorem reindex_keeps_stuck (c : Cfg) (w : World) (t : Tape) (start : Int × Int) (o i : Bool) (hs : List Hdr) :
+    (reindex c w t start o i hs).1.stuck = w.stuck := by
+  unfold reindex
+  rfl
+
+/-- (9) In the model of the four write operations the drive stays free (`stuck` keeps its value)
+    on every path except the ones named here — which are exactly the regions of findings F21
+    and F02: a source that cannot be emitted (Archive, Update), a name that cannot be looked up
+    (Delete, Move), and a Move whose relative target equals its source.  In particular a call
+    that fails while indexing what it appended (any error of the re-index pass) leaves the
+    drive free. -/
+theorem archive_free_unless (c : Cfg) (w : World) (srcs : List Src) (o i : Bool) (env : EnvRecs)
+    (h : (emitAll (archiveItem c) srcs env 0).isSome = true) : (archive c w srcs o i env).1.stuck = w.stuck := by
+  unfold archive
+  by_cases hs : w.stuck = true
+  · simp [hs]
+  · simp only [hs, Bool.false_eq_true, if_false]
+    cases he : emitAll (archiveItem c) srcs env 0 with
+    | none => rw [he] at h; cases h
+    | some x => obtain ⟨hdrs, its⟩ := x; simp only [reindex_keeps_stuck]; simpa using hs
+
+theorem update_free_unless (c : Cfg) (w : World) (srcs : List Src) (r k : Bool) (env : EnvRecs)
+    (h : (emitAll (fun s e => updateItem c s r k e) srcs env 0).isSome = true) :
+    (update c w srcs r k env).1.stuck = w.stuck := by
+  unfold update
+  by_cases hs : w.stuck = true
+  · simp [hs]
+  · simp only [hs, Bool.false_eq_true, if_false]
+    cases he : emitAll (fun s e => updateItem c s r k e) srcs env 0 with
+    | none => rw [he] at h; cases h
+    | some x => obtain ⟨hdrs, its⟩ := x; simp only [reindex_keeps_stuck]; simpa using hs
+
+theorem delete_free_unless (c : Cfg) (w : World) (name : Name) (env : EnvRecs)
+    (h : (lookupForWrite w.idx name).2.toOption.isSome = true) : (delete c w name env).1.stuck = w.stuck := by
+  unfold delete
+  by_cases hs : w.stuck = true
+  · simp [hs]
+  · simp only [hs, Bool.false_eq_true, if_false]
+    generalize hl : lookupForWrite w.idx name = x at h
+    obtain ⟨p, r⟩ := x
+    cases r with
+    | error e => simp [Except.toOption] at h
+    | ok r =>
+      simp only
+      split <;> simp only [reindex_keeps_stuck]
+
+theorem move_free_unless (c : Cfg) (w : World) (from_ to : Name) (env : EnvRecs)
+    (h : (lookupForWrite w.idx from_).2.toOption.isSome = true)
+    (h2 : ∀ r, (lookupForWrite w.idx from_).2 = .ok r → from_ ≠ moveTarget r.name to) :
+    (move c w from_ to env).1.stuck = w.stuck := by
+  unfold move
+  by_cases he : (from_ == to) = true
+  · simp [he]
+  · simp only [he, Bool.false_eq_true, if_false]
+    by_cases hs : w.stuck = true
+    · simp [hs]
+    · simp only [hs, Bool.false_eq_true, if_false]
+      generalize hl : lookupForWrite w.idx from_ = x at h h2
+      obtain ⟨p, r⟩ := x
+      cases r with
+      | error e => simp [Except.toOption] at h
+      | ok r =>
+        have hne : (from_ == moveTarget r.name to) = false := by
+          simp only [beq_eq_false_iff_ne, ne_eq]; exact h2 r rfl
+        simp only [hne, Bool.false_eq_true, if_false]
+        split <;> simp only [reindex_keeps_stuck]
+
 end Stfs.C10
